@@ -162,8 +162,9 @@ fn write_files(dir: &Path, files: &Map<String, Value>) {
 	}
 }
 
-fn tla_args(spec: Option<&Value>) -> HashMap<IStr, TlaArg> {
-	let mut out = HashMap::new();
+// same map type as jrsonnet-cli's TlaOpts::tla_opts builds (its iteration order is what apply_tla sees)
+fn tla_args(spec: Option<&Value>) -> jrsonnet_evaluator::rustc_hash::FxHashMap<IStr, TlaArg> {
+	let mut out = jrsonnet_evaluator::rustc_hash::FxHashMap::default();
 	if let Some(Value::Object(m)) = spec {
 		for (k, v) in m {
 			let arg = if let Some(s) = v.get("str") {
